@@ -67,7 +67,7 @@ func c20StratModel(kind string) *mc.Model {
 				} else if int(sm[len(sm)-1]) != len(st.toks) {
 					t.Fail(kind+"/inflight-sample-value", "TryAcquire (granted=%v) emitted in-flight=%v, %d tokens are outstanding at the decision", ok, sm[len(sm)-1], len(st.toks))
 				}
-				if tok.InFlightCount() != len(st.toks) {
+				if tok != nil && tok.InFlightCount() != len(st.toks) {
 					t.Fail(kind+"/token-inflight", "token reports in-flight %d, outstanding %d", tok.InFlightCount(), len(st.toks))
 				}
 				t.Nontrivial = true
@@ -81,8 +81,11 @@ func c20StratModel(kind string) *mc.Model {
 				st.s.SetLimit(v)
 				st.lim = max1(v)
 			}
-			if g, ok := st.reg.Gauge(core.MetricLimit); !ok || int(g) != st.lim {
-				t.Fail(kind+"/limit-gauge", "limit gauge=%v (registered=%v), enforced limit %d", g, ok, st.lim)
+			// the gauge must report what the strategy enforces (wherever the floor of 1 is applied)
+			if enforced := (stratView{s: st.s}).Limit(); enforced >= 0 {
+				if g, ok := st.reg.Gauge(core.MetricLimit); !ok || int(g) != enforced {
+					t.Fail(kind+"/limit-gauge", "limit gauge=%v (registered=%v), enforced limit %d", g, ok, enforced)
+				}
 			}
 		},
 		FP: func(x any) string { st := x.(*c20Strat); return fmt.Sprint(len(st.toks), st.lim) },
@@ -470,6 +473,13 @@ func pollBackendMark() {
 	}
 }
 
+// settledPollers lets a poller that is on its way out finish (Stop may signal and return) and then
+// counts the poller threads that remain.
+func settledPollers() int {
+	vrt.WaitQuiescent()
+	return livePollers(vrt.Self())
+}
+
 func livePollers(main *vrt.Thread) int {
 	n := 0
 	for _, t := range vrt.S.Threads() {
@@ -502,7 +512,7 @@ func c20Lifecycle(kind string, depth int) *mc.Scenario {
 					history = append(history, "Stop")
 					r.Stop()
 					started = false
-					if n := livePollers(vrt.Self()); n != 0 {
+					if n := settledPollers(); n != 0 {
 						x.Fail(kind+"/poller-survives-stop", "after Stop returned %d poller thread(s) are still alive; history %v", n, history)
 					}
 				case 2:
@@ -520,25 +530,23 @@ func c20Lifecycle(kind string, depth int) *mc.Scenario {
 						// the polled value must have reached the backend as a gauge under the prefixed name
 						for i := range polls {
 							id := fmt.Sprintf("g%d", i)
-							if v, n, ok := pollBackend(id); !ok || v != float64(i) || n != 1 {
+							if v, n, ok := pollBackend(id); !ok || v != float64(i) || n < 1 {
 								x.Fail(kind+"/gauge-not-forwarded", "after a poll the backend holds gauge p.%s = %v (present=%v, written %d times), the supplier returned %d; history %v", id, v, ok, n, i, history)
 							}
 						}
 					}
+					// stopped: no poll at all. Started: at least one poll per period; more than one only counts
+					// against idempotence, i.e. when repeated Starts have left more than one poller behind
+					np := livePollers(vrt.Self())
 					for i := range polls {
 						d := polls[i] - before[i]
-						want := 0
-						if started {
-							want = 1
-						}
-						if d != want {
-							sig := kind + "/polls-while-stopped"
-							if started && d > 1 {
-								sig = kind + "/double-poll"
-							} else if started && d == 0 {
-								sig = kind + "/no-poll-while-started"
-							}
-							x.Fail(sig, "one poll period elapsed with started=%v: gauge %d was polled %d times (expected %d); history %v", started, i, d, want, history)
+						switch {
+						case !started && d != 0:
+							x.Fail(kind+"/polls-while-stopped", "one poll period elapsed while stopped: gauge %d was polled %d times; history %v", i, d, history)
+						case started && d == 0:
+							x.Fail(kind+"/no-poll-while-started", "one poll period elapsed while started: gauge %d was not polled; history %v", i, history)
+						case started && d > 1 && np > 1:
+							x.Fail(kind+"/double-poll", "one poll period elapsed while started: gauge %d was polled %d times by %d pollers (Start is not idempotent); history %v", i, d, np, history)
 						}
 					}
 				}
@@ -580,7 +588,7 @@ func c20StopRace(kind string) *mc.Scenario {
 				stopped = true
 			})
 			vrt.Join(st)
-			if n := livePollers(vrt.Self()); n != 0 {
+			if n := settledPollers(); n != 0 {
 				x.Fail(kind+"/poller-survives-stop", "after Stop returned %d poller thread(s) are still alive", n)
 			}
 			vtime.Sleep(3 * pollEvery)
@@ -632,19 +640,19 @@ func c20LifecycleConcurrent(kind string) *mc.Scenario {
 			}
 			ta, tb := vrt.GoL("A", run(pa)), vrt.GoL("B", run(pb))
 			vrt.Join(ta, tb)
-			if n := livePollers(vrt.Self()); n > 1 {
+			if n := settledPollers(); n > 1 {
 				x.Fail(kind+"/two-pollers", "%v: %d poller threads are alive after concurrent Start/Stop calls returned", x.Aux, n)
 			}
 			r.Stop()
-			if n := livePollers(vrt.Self()); n != 0 {
+			if n := settledPollers(); n != 0 {
 				x.Fail(kind+"/poller-survives-stop", "%v: after a final Stop %d poller thread(s) are still alive", x.Aux, n)
 			}
 			r.Start()
 			before := polls
 			vtime.Sleep(pollEvery + 1)
 			vrt.WaitQuiescent()
-			if d := polls - before; d != 1 {
-				x.Fail(kind+"/double-poll", "%v: after Stop and Start one period polled the gauge %d times", x.Aux, d)
+			if d, np := polls-before, livePollers(vrt.Self()); d < 1 || (d > 1 && np > 1) {
+				x.Fail(kind+"/double-poll", "%v: after Stop and Start one period polled the gauge %d times (%d pollers)", x.Aux, d, np)
 			}
 			r.Stop()
 			before = polls
